@@ -1,4 +1,4 @@
-import Pywbem.Model.Eq
+import Pywbem.Model.NocaseDict
 open Lean Pywbem.Proto Pywbem.Model.Eq
 
 /-! C05 driver.  Objects travel as JSON:
@@ -14,6 +14,9 @@ open Lean Pywbem.Proto Pywbem.Model.Eq
  Requests:
   {"op":"cmp","a":obj,"b":obj}  →  {"eq":b,"ne":b,"heq":b,"ga":b,"gb":b,"neq":b}
   {"op":"cmpn","objs":[obj…],"pairs":[[i,j]…]}  →  {"res":[{"eq","ne","heq","neq"}…],"good":[b…]}
+  {"op":"dictops","allow":b,"ops":[{"o":"setitem","k":key,"v":obj}…]}  →  {"outs":[…],"items":[[key,obj]…],"allow":b}
+  {"op":"state","a":obj}  →  {"keys":[slot…],"restored":[obj|"UNSET"…]}   (__getstate__ keys, __setstate__ of it on a new object)
+  {"op":"eqtop","a":obj,"b":obj}  →  {"ok":b} | {"exc":"TypeError"}
   {"op":"copy","how":"copy"|"shallow"|"deep","a":obj,"base":n}  →  {"obj":obj,"next":n,"doc":[ids]}
 -/
 
@@ -85,6 +88,46 @@ def textHash : PyHash String where
 
 def C := CaseOps.py
 
+def parseKey (j : Json) : Option Key :=
+  match j with
+  | .null => some none
+  | _ => (jsonToChars? j).map some
+
+def parseItems (js : List Json) : Option Items :=
+  js.mapM (fun e =>
+    match e with
+    | Json.arr #[k, v] => (parseKey k).bind (fun k' => (parseObj v).map (fun v' => (k', v')))
+    | _ => none)
+
+def parseDOp (j : Json) : Option DOp :=
+  let k := parseKey (getField j "k")
+  let v := parseObj (getField j "v")
+  match getStr j "o" with
+  | some "setitem" => k.bind (fun k => v.map (DOp.setitem k))
+  | some "getitem" => k.map DOp.getitem
+  | some "delitem" => k.map DOp.delitem
+  | some "contains" => k.map DOp.contains
+  | some "get" => k.bind (fun k => v.map (DOp.get k))
+  | some "pop" => k.bind (fun k => v.map (fun d => DOp.pop k (some d)))
+  | some "pop0" => k.map (fun k => DOp.pop k none)
+  | some "popitem" => some .popitem
+  | some "setdefault" => k.bind (fun k => v.map (DOp.setdefault k))
+  | some "update" => (parseItems (getArr j "items")).map DOp.update
+  | some "clear" => some .clear
+  | some "len" => some .len
+  | some "keys" => some .keys
+  | some "allow" => some (.setAllow ((getBool j "b").getD false))
+  | _ => none
+
+def doutToJson : DOut → Json
+  | .none => Json.mkObj [("none", true)]
+  | .val v => Json.mkObj [("val", objToJson v)]
+  | .bool b => Json.mkObj [("bool", b)]
+  | .nat n => Json.mkObj [("nat", (n : Nat))]
+  | .keys ks => Json.mkObj [("keys", Json.arr (ks.map keyToJson).toArray)]
+  | .item k v => Json.mkObj [("item", Json.arr #[keyToJson k, objToJson v])]
+  | .err e => e.toJson
+
 def handle (j : Json) : Json :=
   match getStr j "op" with
   | some "cmp" =>
@@ -110,10 +153,37 @@ def handle (j : Json) : Json :=
           let a := arr[i]!
           let b := arr[k]!
           Json.mkObj [("eq", eqObj C a b), ("ne", neObj C a b), ("heq", hashes[i]! == hashes[k]!),
+            ("in", pyIn C textHash b [a]),
             ("neq", norms[i]! == norms[k]!)]
         | _ => Json.null)
       Json.mkObj [("res", Json.arr res.toArray), ("good", Json.arr (goods.map (fun (b : Bool) => (b : Json))))]
     | none => Json.mkObj [("bad", "obj")]
+  | some "dictops" =>
+    let s0 : DState := { allow := (getBool j "allow").getD false, items := [] }
+    match (getArr j "ops").mapM parseDOp with
+    | some ops =>
+      let (s, outs) := dRun C s0 ops
+      Json.mkObj [("outs", Json.arr (outs.map doutToJson).toArray),
+        ("items", Json.arr (s.items.map (fun e => Json.arr #[keyToJson e.1, objToJson e.2])).toArray),
+        ("allow", s.allow)]
+    | none => Json.mkObj [("bad", "dictop")]
+  | some "state" =>
+    match parseObj (getField j "a") with
+    | some (.node _ k as) =>
+      let st := getstate k as
+      Json.mkObj [("keys", Json.arr (st.map (fun e => (e.1 : Json))).toArray),
+        ("restored", Json.arr ((setstate k st).map (fun o =>
+          match o with
+          | some v => objToJson v
+          | none => Json.str "UNSET")).toArray)]
+    | _ => Json.mkObj [("bad", "obj")]
+  | some "eqtop" =>
+    match parseObj (getField j "a"), parseObj (getField j "b") with
+    | some a, some b =>
+      match eqTop C a b with
+      | .ok r => Json.mkObj [("ok", r)]
+      | .error e => e.toJson
+    | _, _ => Json.mkObj [("bad", "obj")]
   | some "copy" =>
     match parseObj (getField j "a") with
     | some a =>
